@@ -1,0 +1,102 @@
+//go:build verif
+
+package astits
+
+import (
+	"io"
+	"time"
+
+	"github.com/asticode/go-astikit"
+)
+
+// This file only exists when the "verif" build tag is set. It exposes thin wrappers around package-private pure
+// functions so that external verification harnesses can drive them directly. It adds code only and changes nothing
+// in the regular build.
+
+// VerifComputeCRC32 wraps computeCRC32
+func VerifComputeCRC32(bs []byte) uint32 { return computeCRC32(bs) }
+
+// VerifUpdateCRC32 wraps updateCRC32
+func VerifUpdateCRC32(crc32 uint32, bs []byte) uint32 { return updateCRC32(crc32, bs) }
+
+// VerifCRC32Table returns a copy of the CRC32 table
+func VerifCRC32Table() (t [256]uint32) {
+	copy(t[:], tableCRC32[:])
+	return
+}
+
+// VerifParsePSIData wraps parsePSIData
+func VerifParsePSIData(bs []byte) (*PSIData, error) {
+	return parsePSIData(astikit.NewBytesIterator(bs))
+}
+
+// VerifWritePSIData wraps writePSIData
+func VerifWritePSIData(w io.Writer, d *PSIData) (int, error) {
+	return writePSIData(astikit.NewBitsWriter(astikit.BitsWriterOptions{Writer: w}), d)
+}
+
+// VerifParseDescriptors wraps parseDescriptors and returns the offset reached in bs
+func VerifParseDescriptors(bs []byte) (ds []*Descriptor, offset int, err error) {
+	i := astikit.NewBytesIterator(bs)
+	ds, err = parseDescriptors(i)
+	offset = i.Offset()
+	return
+}
+
+// VerifWriteDescriptorsWithLength wraps writeDescriptorsWithLength
+func VerifWriteDescriptorsWithLength(w io.Writer, ds []*Descriptor) (int, error) {
+	return writeDescriptorsWithLength(astikit.NewBitsWriter(astikit.BitsWriterOptions{Writer: w}), ds)
+}
+
+// VerifCalcDescriptorsLength wraps calcDescriptorsLength
+func VerifCalcDescriptorsLength(ds []*Descriptor) uint16 { return calcDescriptorsLength(ds) }
+
+// VerifParseDVBTime wraps parseDVBTime
+func VerifParseDVBTime(bs []byte) (time.Time, error) {
+	return parseDVBTime(astikit.NewBytesIterator(bs))
+}
+
+// VerifParseDVBDurationMinutes wraps parseDVBDurationMinutes
+func VerifParseDVBDurationMinutes(bs []byte) (time.Duration, error) {
+	return parseDVBDurationMinutes(astikit.NewBytesIterator(bs))
+}
+
+// VerifParseDVBDurationSeconds wraps parseDVBDurationSeconds
+func VerifParseDVBDurationSeconds(bs []byte) (time.Duration, error) {
+	return parseDVBDurationSeconds(astikit.NewBytesIterator(bs))
+}
+
+// VerifWriteDVBTime wraps writeDVBTime
+func VerifWriteDVBTime(w io.Writer, t time.Time) (int, error) {
+	return writeDVBTime(astikit.NewBitsWriter(astikit.BitsWriterOptions{Writer: w}), t)
+}
+
+// VerifWriteDVBDurationMinutes wraps writeDVBDurationMinutes
+func VerifWriteDVBDurationMinutes(w io.Writer, d time.Duration) (int, error) {
+	return writeDVBDurationMinutes(astikit.NewBitsWriter(astikit.BitsWriterOptions{Writer: w}), d)
+}
+
+// VerifWriteDVBDurationSeconds wraps writeDVBDurationSeconds
+func VerifWriteDVBDurationSeconds(w io.Writer, d time.Duration) (int, error) {
+	return writeDVBDurationSeconds(astikit.NewBitsWriter(astikit.BitsWriterOptions{Writer: w}), d)
+}
+
+// VerifParsePacket wraps parsePacket
+func VerifParsePacket(bs []byte, s PacketSkipper) (*Packet, error) {
+	return parsePacket(astikit.NewBytesIterator(bs), s)
+}
+
+// VerifWritePacket wraps writePacket
+func VerifWritePacket(w io.Writer, p *Packet, targetPacketSize int) (int, error) {
+	return writePacket(astikit.NewBitsWriter(astikit.BitsWriterOptions{Writer: w}), p, targetPacketSize)
+}
+
+// VerifParsePESData wraps parsePESData
+func VerifParsePESData(bs []byte) (*PESData, error) {
+	return parsePESData(astikit.NewBytesIterator(bs))
+}
+
+// VerifWritePESHeader wraps writePESHeader
+func VerifWritePESHeader(w io.Writer, h *PESHeader, payloadSize int) (int, error) {
+	return writePESHeader(astikit.NewBitsWriter(astikit.BitsWriterOptions{Writer: w}), h, payloadSize)
+}
